@@ -16,9 +16,9 @@
 (*                                                                                                *)
 (* What the run asks for is NOT specified (contract business rules are opaque); in the model it is*)
 (* any sequence of run steps, in trace validation it is what the probes recorded on the real run  *)
-(* (requested balances, burns and deployments from the node's own accounting callbacks, requested *)
-(* store writes / stake moves of embedded contracts from the contract code run against a recording*)
-(* environment).  The PROPERTY CLAUSES are written over explicit (pre, post, tx, receipt, effects)*)
+(* (requested balances, burns and deployments from the node's own accounting callbacks; requested *)
+(* store writes / stake moves from the contract code run against a recording environment -        *)
+(* embedded contracts - or through a recording host environment - wasm).  The PROPERTY CLAUSES are written over explicit (pre, post, tx, receipt, effects)*)
 (* values so that the same text is an invariant of the bounded model and the verdict on observed  *)
 (* executions of the real code.  Amounts are exact (BigNat limb sequences) everywhere.            *)
 EXTENDS Integers, Sequences, FiniteSets, TLC, BigNat
